@@ -30,6 +30,7 @@ PROP = "C15"
 
 # construct classes the generator avoids: known-finding id -> generator class names (v_cgen.Gen.avoid)
 KNOWN_AVOID = {
+    "sizeof-unparenthesized": ["sizeof-noparen"],
 }
 # construct classes OCCA's parser rejects (outside the property's quantifier); kept out of the generator so that the
 # check is not vacuous.  Listed in the evidence.
@@ -317,6 +318,7 @@ def judge(worker, wd, tag, items, lock=None):
                 verdicts[i] = v
             elif v["status"] == "fail" and verdicts[i]["status"] == "fail":
                 verdicts[i]["what"] += "  || also: " + v["what"][:200]
+            verdicts[i]["o2"] = v["status"] + ":" + v.get("kind", "")
     for i in range(len(items)):
         items[i].pop("_a", None)
         if verdicts[i] is None:
@@ -416,15 +418,18 @@ def stmt_lists(d):
             elif k == "switch":
                 for g in s[2]:
                     rec(g[1])
-    for f in d["helpers"] + [d["main"]]:
+    for f in d["helpers"][1:] + [d["main"]]:          # helpers[0] is the fixed h_fold
         rec(f["body"])
     return out
 
 
 def expr_nodes(d):
     out = []
-    for f in d["helpers"] + [d["main"]]:
+    for f in d["helpers"][1:] + [d["main"]]:
         G.walk_exprs(f, out.append)
+    for t in d.get("tops", []):
+        if t[0] == "gvar":
+            G.walk_exprs(t[5], out.append)
     return out
 
 
@@ -452,6 +457,10 @@ def candidates(d):
         c = copy.deepcopy(d)
         del c["helpers"][hi]
         yield c
+    for ti in range(len(d.get("tops", [])) - 1, -1, -1):
+        c = copy.deepcopy(d)
+        del c["tops"][ti]
+        yield c
     # fewer calls
     if len(d["calls"]) > 1:
         for ci in range(len(d["calls"])):
@@ -465,7 +474,7 @@ def candidates(d):
         for si in range(n - 1, -1, -1):
             c = copy.deepcopy(d)
             L = stmt_lists(c)[li]
-            if L[si][0] == "return" and li < len(d["helpers"]) + 1 and si == n - 1:
+            if L[si][0] == "return" and si == n - 1:
                 continue
             del L[si]
             if not L:
@@ -502,7 +511,7 @@ def candidates(d):
             yield c
 
 
-def reduce_desc(d, still_fails, budget=60):
+def reduce_desc(d, still_fails, budget=40):
     cur = d
     changed = True
     while changed and budget > 0:
@@ -739,7 +748,8 @@ def run(prop, tier, replay, t0):
                 def still_fails(cand, kind=kind):
                     cnt[0] += 1
                     vv = judge(wr, wd, "red%d_%d" % (ci, cnt[0]), [make_item(cand)])[0]
-                    return vv["status"] == "fail" and vv["kind"] == kind
+                    # the reduced program must stay a valid C program (g++ accepts and runs the original text)
+                    return vv["status"] == "fail" and vv["kind"] == kind and vv.get("o2") != "inconclusive:generator"
                 d = reduce_desc(d, still_fails)
                 it2 = make_item(d)
                 v2 = judge(wr, wd, "red%d_f" % ci, [it2])[0]
